@@ -71,6 +71,28 @@ def mutants_of_line(code):
             continue
         for nv in ({0: [1], 1: [0, 2]}.get(v, [v - 1, v + 1])):
             out.append(("const %d->%d" % (v, nv), code[:m.start()] + str(nv) + code[m.end():]))
+    # compound assignment, increment / decrement, shifts and bitwise operators (CRC, UTF-8, hashes, packed tree links)
+    for a_, b_ in (("+=", "-="), ("-=", "+="), ("|=", "&="), ("&=", "|="), ("^=", "|="), ("<<=", ">>="), (">>=", "<<=")):
+        for m in re.finditer(re.escape(a_), code):
+            if a_ in ("+=", "-=", "|=", "&=", "^=") and code[max(0, m.start() - 1):m.start()] in ("<", ">"):
+                continue
+            out.append(("assign %s->%s" % (a_, b_), code[:m.start()] + b_ + code[m.end():]))
+    for m in re.finditer(r"\+\+|--", code):
+        b_ = "--" if m.group(0) == "++" else "++"
+        out.append(("incdec %s->%s" % (m.group(0), b_), code[:m.start()] + b_ + code[m.end():]))
+    for m in re.finditer(r"(?<![<>])(<<|>>)(?![<>=])", code):
+        b_ = ">>" if m.group(1) == "<<" else "<<"
+        out.append(("shift %s->%s" % (m.group(1), b_), code[:m.start()] + b_ + code[m.end():]))
+    for m in re.finditer(r"(?<=[\w\)\]] )([&|^])(?= [\w\(~])", code):
+        for b_ in {"&": "|", "|": "&", "^": "|"}[m.group(1)]:
+            out.append(("bit %s->%s" % (m.group(1), b_), code[:m.start()] + b_ + code[m.end():]))
+    for m in re.finditer(r"\b0[xX]([0-9a-fA-F]+)\b", code):
+        v = int(m.group(1), 16)
+        for nv in (v + 1, v - 1 if v else 1, v >> 1 if v > 1 else 2):
+            out.append(("hex %x->%x" % (v, nv), code[:m.start()] + ("0x%X" % nv) + code[m.end():]))
+    for a_, b_ in (("a_move", "a_copy"), ("a_copy", "a_move")):
+        for m in re.finditer(r"\b%s\b" % a_, code):
+            out.append(("swap %s->%s" % (a_, b_), code[:m.start()] + b_ + code[m.end():]))
     # mirrored identifiers
     for a, b in (("left", "right"), ("right", "left"), ("next", "prev"), ("prev", "next"), ("head", "tail"), ("tail", "head"), ("num_", "mem_"), ("mem_", "num_"), ("fore", "back"), ("back", "fore")):
         for m in re.finditer(r"\b%s\b" % a, code):
